@@ -1,8 +1,10 @@
 /-
 Core E, helper lemmas: the fan-out loop without the hypothesis that every
-subscribed connection is alive (a dead connection in the list is skipped, and
-the message object keeps RETAIN cleared from there on - visible to in-process
-callbacks only).
+subscribed connection is alive (a dead connection in the list is skipped; the
+loop itself, run over an object with RETAIN = 1, would leave the flag cleared
+from there on - `fanoutOuts` - but the live fan-out of `onPublish` clears the flag
+before the loop, so every reachable subscriber is handed RETAIN = 0:
+`fanoutOuts_cleared`, `onPublish_char_gen`).
 -/
 import Mqtt.Proofs.BrokerFanoutSub
 
@@ -92,21 +94,15 @@ theorem fanout_char_gen (subs : List (Nat × Nat)) :
       congr 1
       exact fanoutOuts_congr b m.p eqos m.p.retain rest m.p.retain
 
-/-- forget the RETAIN flag an in-process callback sees -/
-def dropCallRetain : Out → Out
-  | .call cb w => .call cb { w with retain := false }
-  | o => o
-
 /-- is subscriber `s` reachable: an in-process callback, or a live connection -/
 def reachable (b : B) (s : Nat) : Bool := decide (cbBase ≤ s) || b.alive s
 
-theorem fanoutOuts_norm (b : B) (p : Pub) (subs : List (Nat × Nat)) : ∀ r,
-    (fanoutOuts b p r subs).map dropCallRetain =
-      (subs.filter (fun sq => reachable b sq.1)).map (fun sq => dropCallRetain (fwd p sq)) := by
+/-- the loop over an object whose RETAIN flag is clear: one forward per reachable entry -/
+theorem fanoutOuts_cleared (b : B) (p : Pub) (hp : p.retain = false) (subs : List (Nat × Nat)) :
+    fanoutOuts b p false subs = (subs.filter (fun sq => reachable b sq.1)).map (fwd p) := by
   induction subs with
-  | nil => intro r; rfl
+  | nil => rfl
   | cons sq rest ih =>
-    intro r
     obtain ⟨s, q⟩ := sq
     by_cases hs : s < cbBase
     · have hs' : ¬ cbBase ≤ s := by omega
@@ -114,23 +110,27 @@ theorem fanoutOuts_norm (b : B) (p : Pub) (subs : List (Nat × Nat)) : ∀ r,
       | true =>
         simp only [fanoutOuts, hs, hal, ↓reduceIte, List.map_cons, ih, List.filter_cons, reachable, hs',
           decide_false, Bool.false_or]
-        simp [fwd, hs, dropCallRetain]
+        simp [fwd, hs]
       | false =>
         simp only [fanoutOuts, hs, hal, ↓reduceIte, ih, List.filter_cons, reachable, hs', decide_false,
           Bool.false_or, Bool.false_eq_true]
     · have hs' : cbBase ≤ s := by omega
       simp only [fanoutOuts, hs, ↓reduceIte, List.map_cons, ih, List.filter_cons, reachable, hs', decide_true,
         Bool.true_or]
-      simp [fwd, hs, dropCallRetain]
+      obtain ⟨dup, qos, retain, topic, pktid, payload⟩ := p
+      simp only at hp
+      subst hp
+      simp [fwd, hs]
 
-/-- (e) without the liveness hypothesis -/
+/-- (e) without the liveness hypothesis: exactly one forward per matching entry
+of a reachable subscriber, RETAIN = 0 for connections and in-process callbacks alike -/
 theorem onPublish_char_gen (b : B) (p : Pub) (hinv : Inv b)
     (hg : good p.topic = true) (hn : validName p.topic = true) (hq : p.qos ≤ 2)
     (hid : p.pktid ≠ 0 ∨ p.qos = 0) :
     (onPublish b ⟨p, false⟩).2.2.2 = true ∧
-    ((onPublish b ⟨p, false⟩).2.2.1.map dropCallRetain).Perm
+    (onPublish b ⟨p, false⟩).2.2.1.Perm
       (((abs b.topics.sroot).filter (fun e => matchLevels e.1 (split p.topic) && reachable b e.2.1)).map
-        (fun e => dropCallRetain (fwd p (e.2.1, min p.qos e.2.2)))) := by
+        (fun e => fwd { p with retain := false } (e.2.1, min p.qos e.2.2))) := by
   obtain ⟨hm, hctr⟩ := retainStep_clean b ⟨p, false⟩ rfl
   obtain ⟨f1, f2, _, _, _⟩ := retainStep_frame b ⟨p, false⟩
   have ht : p.topic ≠ [] := by
@@ -144,7 +144,7 @@ theorem onPublish_char_gen (b : B) (p : Pub) (hinv : Inv b)
     simp only [List.mem_map, List.mem_filter] at this
     obtain ⟨e, ⟨he, _⟩, rfl⟩ := this
     exact ⟨e, he, rfl⟩
-  have hfan := fanout_char_gen subs (retainStep b ⟨p, false⟩).1 ⟨p, false⟩ ht
+  have hfan := fanout_char_gen subs (retainStep b ⟨p, false⟩).1 ⟨{ p with retain := false }, false⟩ ht
     (by
       rcases hid with h | h
       · exact Or.inl h
@@ -157,11 +157,11 @@ theorem onPublish_char_gen (b : B) (p : Pub) (hinv : Inv b)
   simp only
   obtain ⟨_, g3⟩ := hfan
   refine ⟨trivial, ?_⟩
-  rw [g3, fanoutOuts_norm]
+  rw [fanoutLive_outs, loopMsg_eq, g3, fanoutOuts_cleared _ _ rfl]
   have hre : ∀ s, reachable (retainStep b ⟨p, false⟩).1 s = reachable b s := by
     intro s; simp only [reachable, alive_congr b _ f2]
   simp only [hre]
-  have := (hperm.filter (fun sq => reachable b sq.1)).map (fun sq => dropCallRetain (fwd p sq))
+  have := (hperm.filter (fun sq => reachable b sq.1)).map (fun sq => fwd { p with retain := false } sq)
   refine this.trans ?_
   rw [List.filter_map, List.map_map, List.filter_filter]
   apply List.Perm.of_eq
@@ -174,15 +174,16 @@ theorem onPublish_char_gen (b : B) (p : Pub) (hinv : Inv b)
 
 /-- what subscriber `s`, holding a matching subscription granted at QoS `g`,
 is handed for the accepted PUBLISH `p`: same topic, same payload, QoS
-`min(p.qos, g)`; a connection gets RETAIN = 0 and the publisher's identifier
-(none at QoS 0), an in-process callback the message as received -/
+`min(p.qos, g)`, RETAIN = 0; a connection gets the publisher's identifier
+(none at QoS 0) on the wire, an in-process callback the message object with
+its RETAIN flag cleared -/
 def delivery (p : Pub) (s g : Nat) : Out :=
   if s < cbBase then
     .send s (.publish { dup := p.dup, qos := min p.qos g, retain := false, topic := p.topic,
                         pktid := if min p.qos g = 0 then 0 else p.pktid, payload := p.payload })
-  else .call s { p with qos := min p.qos g }
+  else .call s { p with qos := min p.qos g, retain := false }
 
-theorem delivery_eq (p : Pub) (s g : Nat) : delivery p s g = fwd p (s, min p.qos g) := rfl
+theorem delivery_eq (p : Pub) (s g : Nat) : delivery p s g = fwd { p with retain := false } (s, min p.qos g) := rfl
 
 /-- the subscriber an output is addressed to -/
 def target : Out → Option Nat
@@ -192,13 +193,6 @@ def target : Out → Option Nat
 
 theorem target_delivery (p : Pub) (s g : Nat) : target (delivery p s g) = some s := by
   unfold delivery; split <;> rfl
-
-theorem target_dropCallRetain (o : Out) : target (dropCallRetain o) = target o := by
-  cases o <;> rfl
-
-theorem dropCallRetain_send (o : Out) (c : Nat) (pk : Packet) (h : dropCallRetain o = .send c pk) :
-    o = .send c pk := by
-  cases o <;> simp_all [dropCallRetain]
 
 /-- the SUBSCRIBE / UNSUBSCRIBE steps leave the connection table as it is -/
 theorem packet_subscribe_conns (b : B) (hinv : Inv b) (c id : Nat) (topics : List (Bytes × Nat))
